@@ -89,6 +89,9 @@ def _peel(sym):
             if (s[1] == "Eq") != c:
                 val = not val
             s = strip(s[2])
+        elif s[0] == "phi" and len([a for a in s[1] if strip(a)[0] != "const"]) == 1 and all(isinstance(strip(a)[2], bool) for a in s[1] if strip(a)[0] == "const"):
+            # the result of an inlined `a && b` helper after its constant exits were threaded away: `phi(false | b)`
+            s = [strip(a) for a in s[1] if strip(a)[0] != "const"][0]
         else:
             return s, val
 
